@@ -172,3 +172,9 @@ Definition static_safeb (f : fmt_id) (b : bytes) : option bool :=
   | F_luks => Some (luks_safeb b)
   | F_vhdx | F_vmdk => None
   end.
+
+(* the VMDK inspector's private attributes (desc_text, vmdktype) and regions, seen through the interface *)
+Definition vmdk_ext_of (i : istate) : vx :=
+  match i with I_vmdk s => i_ext s | _ => mkVx None VMDK_NOTFOUND end.
+Definition region_data (i : istate) (n : rname) : option bytes :=
+  match rget n (regions_of i) with Some r => Some (r_data r) | None => None end.
